@@ -187,6 +187,8 @@ class Interp:
             return self.branch(b)
         if isinstance(v, lib.SMap):
             raise Unsupported('truthiness of symbolic map')
+        if isinstance(v, lib.PyDecimal):
+            return bool(v.value)
         from . import envmodel as E
         if isinstance(v, (E.MatchVal, E.ConfigAttr, E.EnvConfig, E.CompiledPattern)):
             return True
